@@ -169,6 +169,12 @@ def votesOf (ws : Ring) (c : Ctx) (chamber : Bool) (vt : VT) (h : Hash) : List E
   | none => []
   | some w => (w.sta chamber vt).info h
 
+/-- the count VotesWrapper.getVotes returns next to the votes -/
+def countOf (ws : Ring) (c : Ctx) (chamber : Bool) (vt : VT) (h : Hash) : Nat :=
+  match getW ws c with
+  | none => 0
+  | some w => (w.sta chamber vt).counts h
+
 /-! ## VoteDB (in-memory part) -/
 
 structure VoteDB where
@@ -244,6 +250,7 @@ structure Voter where
   curMarked : Option (Hash × Prio) := none
   nextVoted : Option (Hash × Prio) := none
   over : Over := fun _ _ _ => false
+  overT : Hash → VT → Nat := fun _ _ => 0   -- VoteStatus.chamberTh: threshold in force when the chamber quorum was seen
   ws : Ring := []
   updateEv : Option (Ctx × Hash) := none
   db : VoteDB := {}
@@ -279,6 +286,10 @@ def exec : Nat → Voter → Call → Voter × List Out × Bool
   | _ + 1, v, .commit h _ =>
     if !v.env.hasBlock h then (v, [], true) else
     let c := v.ctx
+    -- the packed votes must still reach the quorums that were latched in voteOver
+    if !(v.over h true .precommit && overThreshold (countOf v.ws c true .precommit h) (v.overT h .precommit) true) then (v, [], true)
+    else if v.shouldCert && !(v.over h true .cert && overThreshold (countOf v.ws c true .cert h) (v.overT h .cert) false) then (v, [], true)
+    else
     let certs := if v.shouldCert then votesOf v.ws c true .cert h else []
     ({ v with committed := true },
       [.commit c h v.shouldCert (votesOf v.ws c true .precommit h) (votesOf v.ws c false .precommit h) certs], true)
@@ -314,7 +325,9 @@ def exec : Nat → Voter → Call → Voter × List Out × Bool
         | some ch => [Out.over v.ctx vt ch h count T]
         | none => []
       let v1 : Voter := match kindChamber? k with
-        | some ch => { v with over := fun h' c' t' => if h' = h ∧ c' = ch ∧ t' = vt then true else v.over h' c' t' }
+        | some ch =>
+          { v with over := fun h' c' t' => if h' = h ∧ c' = ch ∧ t' = vt then true else v.over h' c' t'
+                   overT := fun h' t' => if h' = h ∧ ch = true ∧ t' = vt then T else v.overT h' t' }
         | none => v
       if k ≠ .chamber then (v1, ghost, true) else
       match vt with
@@ -409,7 +422,7 @@ def updateContext (v : Voter) (c : Ctx) (step : Nat) (cert : Bool) : Voter × Li
         | none => ([], none)
       ({ v with updateEv := ue, ws := newW v.ws c, precommitted := false, committed := false, sentChange := false,
                 certificated := false, curMarked := if c.index = 1 then none else v.nextVoted,
-                nextMarked := none, nextVoted := none, over := fun _ _ _ => false }, o)
+                nextMarked := none, nextVoted := none, over := fun _ _ _ => false, overT := fun _ _ => 0 }, o)
     else (v, [])
   let v2 := { v1 with started := true, round := c.round, index := c.index, step := step, shouldCert := cert,
                       db := v1.db.updateContext c.round c.index }
